@@ -69,6 +69,9 @@ type Program struct {
 	summaries   map[*ssa.Function]*RetSummary
 	summarizing map[*ssa.Function]bool
 	inlineBound int
+	lockFlows   map[*ssa.Function]*LockFlow
+	accesses    map[*ssa.Function][]Access
+	rootsAll    []Root
 
 	NumPackages int
 	NumFuncs    int
